@@ -162,6 +162,7 @@ static int TRACE = 0;
 
 #include <stdlib.h>
 #include <string.h>
+#include <errno.h>
 
 #include "qsopt_EGLPNUM_TYPENAME.h"
 
@@ -637,7 +638,7 @@ EGLPNUM_TYPENAME_QSLIB_INTERFACE EGLPNUM_TYPENAME_QSdata *EGLPNUM_TYPENAME_QSrea
 
 	if ((file = EGioOpen (filename, "r")) == 0)
 	{
-		perror (filename);
+		QSlog("%s: %s", filename, strerror (errno));
 		QSlog("Unable to open \"%s\" for input.", filename);
 	}
 	if (file == NULL)
